@@ -5,7 +5,8 @@ from vlib.core import Case
 ID = "C11"
 LEAN_MODULE = "Ctrmml.Properties.C11"
 THEOREMS = ["C11_fm_roundtrip", "C11_fm_2op_spec", "C11_psg_frames", "C11_psg_marks", "C11_pitch_node", "C11_pitch_node_limit",
-            "C11_pitch_vibrato", "C11_vibrato_rate", "C11_pitch_decode_compact", "C11_pitch_decode_extended", "C11_pitch_form",
+            "C11_pitch_vibrato", "C11_vibrato_rate", "C11_pitch_decode_compact", "C11_pitch_decode_extended", "C11_pitch_loop_checked",
+            "C11_pitch_form",
             "C11_psg_slide_rat_partial"]
 LEVEL = "proof"
 STREAM = "data.bank"
@@ -232,6 +233,16 @@ CORPUS = [
     # the compact form throws invalid_argument at the 257th node before it would be too long: the extended pass reports it
     "ins ; @m1 " + " ".join(["0"] * 256) + " 0>100:2",
     "ins ; @m1 " + " ".join(["0"] * 255) + " 0>100:2",
+    # loop position 256 = 256 nodes, then the mark (or a vibrato macro that adds no node): wrapped to 00 after c469126,
+    # an InputError since 3ecca73; 255 nodes then the mark is position 255 and is accepted
+    "ins ; @m1 " + " ".join(["0", "1"] * 128) + " |",
+    "ins ; @m1 " + " ".join(["0", "1"] * 127) + " 0 |",
+    "ins ; @m1 " + " ".join(["0", "1"] * 128) + " V0:1:-5",
+    "ins ; @m1 " + " ".join(["0>100:2"] * 256) + " |",
+    "ins ; @m1 " + " ".join(["0>100:2"] * 255) + " |",
+    "ins ; @m1 0:65280 |",
+    "ins ; @m1 " + " ".join(["0:1000"] * 64) + " |",
+    "ins ; @m1 " + " ".join(["0:1000"] * 63) + " 0:999 |",
     # loop mark with 256 nodes in front of it / behind it
     "ins ; @m1 | " + " ".join(["0", "1"] * 128),
     "ins ; @m1 " + " ".join(["0", "1"] * 127) + " 0 | 5",
@@ -303,8 +314,8 @@ def limit_family(rng, tier):
     """pitch envelopes of 254..258 nodes: add_pitch_node rejects the 257th (fix c469126)"""
     counts = [254, 255, 256, 257, 258]
     for n in counts:
-        for form in ["singles", "long", "two-long", "extended", "noext-capped", "late-extended", "loop-first", "loop-mid", "vib-tail",
-                     "vib-head", "two-envelopes"]:
+        for form in ["singles", "long", "two-long", "extended", "noext-capped", "late-extended", "loop-first", "loop-mid", "loop-end",
+                     "loop-end-extended", "vib-none-end", "vib-tail", "vib-head", "two-envelopes"]:
             noext = form == "noext-capped"
             if form == "singles":
                 toks = [str(rng.choice([0, 1, -1, 12])) for _ in range(n)]
@@ -324,6 +335,12 @@ def limit_family(rng, tier):
                 m = rng.randrange(1, min(n, 255))
                 toks = [str(rng.choice([0, 1])) for _ in range(n)]
                 toks.insert(m, "|")
+            elif form == "loop-end":
+                toks = [str(rng.choice([0, 1])) for _ in range(n)] + ["|"]
+            elif form == "loop-end-extended":
+                toks = ["0>100:2"] * n + ["|"]
+            elif form == "vib-none-end":
+                toks = [str(rng.choice([0, 1])) for _ in range(n)] + ["V0:1:%d" % rng.choice([-1, -5, -2147483647])]
             elif form == "vib-tail":
                 toks = ["0"] * (n - 3) + ["V0:1:%d" % rng.choice([1, 5, 200])]
             elif form == "vib-head":
@@ -522,8 +539,7 @@ def finding_key(case, impl, judge):
     if "psg" in judge.lower():
         return "psg:index-overflow" if big else "psg"
     if "@m" in judge:
-        if big:
-            return "pitch:index-overflow"
+        # (more than 256 nodes, or a loop mark behind the 256th, is an InputError now: no pitch:index-overflow key)
         # step overflow: a written node whose per-frame step does not fit 16 bits
         if step_overflow(case.req):
             return "pitch:step-overflow"
